@@ -77,7 +77,7 @@ m = {
  ],
  "checks": [],
  "not_applicable": [],
- "notes": "Technique family: deterministic simulation with fault injection. ./check <ID> quick|thorough; VERIF_SEED, VERIF_BUDGET_S, VERIF_WORKERS honoured. Exit 0 held / 1 VIOLATION / 2 harness trouble. Known findings: known_findings.json.",
+ "notes": "Technique family: deterministic simulation with fault injection. ./check <ID> quick|thorough; VERIF_SEED, VERIF_BUDGET_S, VERIF_WORKERS honoured. quick: 40 s, 1-10 validators, up to 6 heights per run; thorough: 600 s and every second worker explores a wider scenario space (1-13 validators, up to 12 heights per run, three times the event cap). Exit 0 held / 1 VIOLATION / 2 harness trouble. Known findings: known_findings.json.",
 }
 for pid in sorted(CHECKS):
     ref, text = CHECKS[pid]
